@@ -3,6 +3,7 @@
 //! did, and the verdict of an executable property oracle.
 #![allow(dead_code, clippy::all)]
 
+mod alloc;
 mod out;
 mod props;
 mod rng;
@@ -11,6 +12,9 @@ mod simk;
 mod util;
 
 use std::process::exit;
+
+#[global_allocator]
+static GLOBAL: alloc::Tracking = alloc::Tracking;
 
 pub struct Args {
     pub prop: String,
